@@ -292,7 +292,12 @@ def _obs(typ, choice_num, exotic, family=None):
                                                   v=v)),
             st.integers(1, 50).map(lambda v: dict(t="np", dtype="int64",
                                                   v=v)))
-        return st.one_of(py, py, npy).map(list)
+        # a rate per elapsed time / a weighted count: float value and total
+        # (quarters: sums stay exact)
+        pyf = st.tuples(
+            st.integers(0, 400).map(lambda v: dict(t="float", v=v / 4.0)),
+            st.integers(1, 400).map(lambda v: dict(t="float", v=v / 4.0)))
+        return st.one_of(py, py, npy, pyf).map(list)
     if typ == "CHOICE":
         idx = st.integers(0, choice_num - 1)
         return st.tuples(st.one_of(
@@ -1156,6 +1161,25 @@ def _check_results(case, ctx):
     def observe_full():
         s_full.get_filename_with_replaced_params(tpl_plain)
 
+    def probe_unknown_field():
+        # (runs FIRST) a template that names a parameter the object does not have: the
+        # name comes back as it is or the call is refused - either way the
+        # QUERY leaves the object as it was (judged by the round trips
+        # below, which compare with the library's == as well)
+        import warnings as _w
+        try:
+            with _w.catch_warnings():
+                _w.simplefilter("ignore")
+                s_full.get_filename_with_replaced_params(
+                    "res_{no_such_parameter_%d}.json" % len(case["params"]))
+                if s is not s_full:
+                    s.get_filename_with_replaced_params(
+                        "res_{no_such_parameter}.json")
+        except Exception:       # noqa
+            ctx.label("results:unknown_template_field_refused")
+        else:
+            ctx.label("results:unknown_template_field_kept")
+
     def string_targets():
         _roundtrips(run, "", s_full, _img_results, SimulationResults, tags)
         # every Result on its own
@@ -1241,8 +1265,8 @@ def _check_results(case, ctx):
             _lib_eq("json_second_generation_file", jf, jf2, tags)
 
     try:
-        for fn in (string_targets, file_names, pickle_files, json_files,
-                   observe_full):
+        for fn in (probe_unknown_field, string_targets, file_names,
+                   pickle_files, json_files, observe_full):
             run.stage(fn, tags)
         run.finish()
     finally:
